@@ -80,7 +80,7 @@ func replayParse(raw json.RawMessage) (string, string) {
 }
 
 func TestIntakePairings(t *testing.T) {
-	ev.Rule(chkParse, "exhaustive: for each of the 5 key types x request hash algorithm {sha2-256, sha2-512} (protocol enabling both) x type: update / recover with next commitment in {commitment of the revealed key under sha2-256, under sha2-512, commitment of another key}; create / recover with (update, recovery) commitments equal or different; optional nonce and kid; oracle: Parse rejects exactly the equal pairings and accepts the distinct controls; non-trivial = an equal pairing")
+	ev.Rule(chkParse, "exhaustive: for each of the 5 key types x request hash algorithm {sha2-256, sha2-512} (protocol enabling both) x type: update / recover with next commitment (for recover: next recovery commitment and, separately, next update commitment) in {commitment of the revealed key under sha2-256, under sha2-512, commitment of another key}; create / recover with (update, recovery) commitments equal or different; optional nonce and kid; oracle: Parse rejects exactly the equal pairings and accepts the distinct controls; non-trivial = an equal pairing")
 	item := 0
 	for _, kt := range keys.AllTypes {
 		for _, code := range []uint64{asm.SHA256, asm.SHA512} {
@@ -119,6 +119,14 @@ func TestIntakePairings(t *testing.T) {
 					{"next-recovery=commit(other)", asm.Commit(k(2), code), false},
 				} {
 					add(hist.NewSigned(hist.SignedSpec{Name: "R", Type: "recover", Suffix: s, Code: code, Reveal: k(0), NextUpd: k(3), Markers: mk, Opt: hist.Opt{NextRecovery: pr.next}}), "recover", pr.name, pr.reject)
+				}
+				// recover: next update commitment vs revealed recovery key
+				for _, pr := range []pairing{
+					{"next-update=commit256(revealed)", asm.Commit(k(0), asm.SHA256), true},
+					{"next-update=commit512(revealed)", asm.Commit(k(0), asm.SHA512), true},
+					{"next-update=commit(other)", asm.Commit(k(2), code), false},
+				} {
+					add(hist.NewSigned(hist.SignedSpec{Name: "R", Type: "recover", Suffix: s, Code: code, Reveal: k(0), NextRec: k(3), Markers: mk, Opt: hist.Opt{NextUpdate: pr.next}}), "recover", pr.name, pr.reject)
 				}
 				// recover / create: update commitment equal to recovery commitment
 				same := asm.Commit(k(4), code)
@@ -177,7 +185,7 @@ func replayCycle(raw json.RawMessage) (string, string) {
 }
 
 func TestCyclicHistories(t *testing.T) {
-	ev.Rule(chkCycles, "rapid: create + p in 0..3 plain steps, then a cycle of length 1..4 (self-loop: next commitment == consumed commitment; k-cycle: the closing operation re-commits to the commitment consumed k-1 steps earlier) in the update chain or in the recovery chain, optionally a valid non-looping competitor for the closing operation's commitment anchored before or after it, a continuation behind the competitor, and operations re-revealing the revisited key; all key types, both hash algorithms, drawn coordinates and store order; oracle: terminates (step bound), no commitment consumed twice within a chain, state == reference model; non-trivial = the closing operation is validly signed (it would be applied if the rule were absent)")
+	ev.Rule(chkCycles, "rapid: create + p in 0..3 plain steps, then a cycle of length 1..4 (self-loop: next commitment == consumed commitment; k-cycle: the closing operation re-commits to the commitment consumed k-1 steps earlier) in the update chain or in the recovery chain, optionally a valid non-looping competitor for the closing operation's commitment anchored before or after it, a continuation behind the competitor, and operations re-revealing the revisited key; one recovery-chain case in four closes with a recover that hands the commitment it consumes on as its next update commitment, followed by an update revealing that key; all key types, both hash algorithms, drawn coordinates and store order; oracle: terminates (step bound), no commitment consumed twice within a chain, state == reference model; non-trivial = the closing operation is validly signed (it would be applied if the rule were absent)")
 	ev.Rapid(t, chkCycles, 500, 5000, func(t *rapid.T) {
 		code := rapid.SampledFrom([]uint64{asm.SHA256, asm.SHA512}).Draw(t, "hash")
 		nk := 0
@@ -245,8 +253,18 @@ func TestCyclicHistories(t *testing.T) {
 			}
 			closing = hist.NewSigned(spec)
 		}
+		crossChain := inRecovery && !closingForged && rapid.IntRange(0, 3).Draw(t, "crossChain") == 0
+		if crossChain {
+			// the closing recover names a fresh recovery commitment but hands the commitment it consumes on as the next
+			// UPDATE commitment; an update revealing that very key follows
+			closing = hist.NewSigned(hist.SignedSpec{Name: "closing-cyc", Type: "recover", Suffix: s, Code: code, Reveal: cur, NextRec: key(), Markers: map[string]interface{}{"closing": "v"},
+				Opt: hist.Opt{NextUpdate: asm.Commit(cur, code)}})
+		}
 		ops = append(ops, closing)
 		closeIdx := len(ops) - 1
+		if crossChain {
+			ops = append(ops, hist.NewSigned(hist.SignedSpec{Name: "update-with-recovery-key", Type: "update", Suffix: s, Code: code, Reveal: cur, NextUpd: key(), Markers: map[string]interface{}{"twice": "v"}}))
+		}
 		compIdx := -1
 		if rapid.Bool().Draw(t, "competitor") {
 			n := key()
